@@ -186,6 +186,7 @@ fn show_map(sm: &SourceMap) -> String {
 fn show_hit(t: Option<Token<'_>>) -> String {
     match t {
         None => "_".into(),
+        Some(t) if !token_accessors_agree(&t) => "accessors-differ".into(),
         Some(t) => format!("{}:{}:{}:{}", show_opt(t.get_source()), t.get_src_line(), t.get_src_col(), show_opt(t.get_name())),
     }
 }
